@@ -12,6 +12,7 @@ import SocVerif.Driver.DecD
 import SocVerif.Driver.CsrMonD
 import SocVerif.Driver.GpioD
 import SocVerif.Driver.E2ED
+import SocVerif.Driver.RootD
 
 def main (args : List String) : IO UInt32 := do
   match args with
@@ -31,4 +32,5 @@ def main (args : List String) : IO UInt32 := do
   | ["csrmon"] => CsrMonD.main; return 0
   | ["gpio"] => GpioD.main; return 0
   | ["e2e"] => E2ED.main; return 0
+  | ["root"] => RootD.main; return 0
   | _ => IO.eprintln "usage: driver <mux|mmap|...>"; return 2
